@@ -8,6 +8,28 @@ _BASE = (
 )
 
 CLAIMS = {
+  "C09": {
+    "text": "Non-interference by contract: for every kernel of the repository (census re-enumerated from /repo on every run, all closure "
+    "specialisations; the real kernel body executed symbolically) it is proved that (ISOLATION) every access to an nworld-led Data/efc "
+    "field is indexed by the thread's owning world, (owner) the owning world is a thread-id component or the world tag of the thread's "
+    "own slot, (SLOT) every access to the world-shared contact/collision buffers is to the thread's own index, a slot it allocated, a "
+    "slot its own world's rows point to, or is guarded by tag[slot]==world. These hold for all sizes, worlds and paths, which is what a "
+    "batch-vs-alone differential test can only sample.",
+    "note": _BASE + "Formals are classified by the naming convention X_in/X_out<->Data.X checked against types.py. The final step (threads "
+    "that only touch their own world's cells compute a function of that world's state) is argued in DESIGN.md, not mechanised. Kernels in "
+    "contracts/scope_C09.txt (a few constructs outside the dialect: bvh/mesh intrinsics, closure-built function lists) and modules "
+    "set_const/render/bvh are unverified surroundings; tile intrinsics are abstracted to row reads/writes.",
+    "design_ref": "DESIGN.md 3 (C09)",
+  },
+  "C10": {
+    "text": "MODULO schema over every kernel and wp.func it inlines: each access to a '*'-batched Model/Option/Statistic field is proved "
+    "(SMT equality, no ignore list) to be indexed by (owning world) % field.shape[0]; closure integers standing for batch sizes are tied "
+    "to the array shape by launch-site obligations. Found and repaired: flex narrowphase indexed opt_ccd_tolerance by 0.",
+    "note": _BASE + "Classification of formals by naming convention; put_model/_create_array (numpy host code giving the leading "
+    "dimension batch_sizes[name]) is audited natively, not proved. Scope file contracts/scope_C10.txt lists untranslatable kernels; "
+    "module set_const (writes derived Model fields) is not part of the claim.",
+    "design_ref": "DESIGN.md 3 (C10)",
+  },
   "C13": {
     "text": "io.reset_data is executed symbolically as a whole (host code + its five nested kernels bound through the real launch sites, "
     "for reset=None, a bool mask and an integer mask). For a symbolic selected world every field of the integration state and every "
